@@ -98,7 +98,7 @@ func (b *builder) replace(r *ast.ReturnStmt, g []guard, dry bool) ([]ast.Stmt, i
 	case mStmt:
 		var out []ast.Stmt
 		for _, e := range r.Results {
-			if !simpleExpr(nil, e) {
+			if !effectFree(e) {
 				out = append(out, &ast.AssignStmt{Lhs: []ast.Expr{ast.NewIdent("_")}, Tok: token.ASSIGN, Rhs: []ast.Expr{e}, TokPos: pos})
 			}
 		}
@@ -226,7 +226,7 @@ func (b *builder) replace(r *ast.ReturnStmt, g []guard, dry bool) ([]ast.Stmt, i
 		var out []ast.Stmt
 		for i, l := range m.lhs {
 			if isDead(i) {
-				if !simpleExpr(nil, es[i]) {
+				if !effectFree(es[i]) {
 					out = append(out, &ast.AssignStmt{Lhs: []ast.Expr{ast.NewIdent("_")}, Tok: token.ASSIGN, Rhs: []ast.Expr{es[i]}, TokPos: pos})
 				}
 				continue
@@ -284,6 +284,25 @@ func (b *builder) replace(r *ast.ReturnStmt, g []guard, dry bool) ([]ast.Stmt, i
 	if !val {
 		branch = elseList(m.consumer)
 	}
+	// an else-if chain: keep deciding while the next test is decided by the same results
+	for len(branch) == 1 {
+		nx, ok := branch[0].(*ast.IfStmt)
+		if !ok || nx.Init != nil {
+			break
+		}
+		c2 := cloneAST(nx.Cond, b.c.n.back).(ast.Expr)
+		h2 := &ast.ExprStmt{X: c2}
+		b.substLHS(h2, es)
+		v2, k2 := b.evalCond(h2.X, g)
+		if !k2 {
+			break
+		}
+		if v2 {
+			branch = nx.Body.List
+		} else {
+			branch = elseList(nx)
+		}
+	}
 	if !terminatesList(branch) {
 		out := []ast.Stmt{}
 		liveBranch = branch
@@ -313,7 +332,7 @@ func (b *builder) replace(r *ast.ReturnStmt, g []guard, dry bool) ([]ast.Stmt, i
 		simple := simpleExpr(nil, e)
 		switch {
 		case uses[i] == 0:
-			if !simple {
+			if !effectFree(e) {
 				out = append(out, &ast.AssignStmt{Lhs: []ast.Expr{ast.NewIdent("_")}, Tok: token.ASSIGN, Rhs: []ast.Expr{e}, TokPos: pos})
 			}
 		case simple || (uses[i] == 1 && nonSimple == 1):
